@@ -132,6 +132,20 @@ def translate(repo_src):
 ATTRS = {"status": "AStatus", "status_code": "AStatusCode", "code": "ACode"}
 
 
+def needs_iterable(tree, module):
+    """`Iterable` is collections.abc.Iterable (imported at module level, once)"""
+    imps = [n for n in tree.body if isinstance(n, ast.ImportFrom) and any((a.asname or a.name) == "Iterable" for a in n.names)]
+    if len(imps) != 1 or imps[0].module != "collections.abc" or imps[0].level != 0 \
+            or any((a.asname or a.name) == "Iterable" and a.name != "Iterable" for a in imps[0].names):
+        raise TranslationError(f"{module}: Iterable is not collections.abc.Iterable")
+    for n in ast.walk(tree):
+        if isinstance(n, (ast.FunctionDef, ast.ClassDef, ast.AsyncFunctionDef)) and n.name == "Iterable":
+            raise TranslationError(f"{module}: Iterable is redefined")
+        if isinstance(n, (ast.Import, ast.ImportFrom)) and n not in imps and any((a.asname or a.name).split(".")[0] == "Iterable" for a in n.names):
+            raise TranslationError(f"{module}: Iterable is imported twice")
+
+
+
 def translate_coerce(f):
     """_coerce_status(exc): `for attr in (<names>): val = getattr(exc, attr, None); if isinstance(val, int): return val`
     (unrolled), `for arg in getattr(exc, 'args', ()): if isinstance(arg, int) and lo <= arg <= hi: return arg`, `return None`"""
@@ -140,7 +154,25 @@ def translate_coerce(f):
         raise TranslationError("_coerce_status: signature")
     out = []
     body = [s for s in f.body if not (isinstance(s, ast.Expr) and isinstance(s.value, ast.Constant))]
-    for s in body:
+    # `args = getattr(exc, 'args', ()); if isinstance(args, Iterable): for arg in args: ...` reads like the loop over a tuple:
+    # an `args` that cannot be iterated carries no arguments (Classify.e_args = [])
+    flat = []
+    guarded_args = False
+    for i, s in enumerate(body):
+        if ast.unparse(s) == f"args = getattr({exc}, 'args', ())":
+            nxt = body[i + 1] if i + 1 < len(body) else None
+            if not (isinstance(nxt, ast.If) and not nxt.orelse and ast.unparse(nxt.test) == "isinstance(args, Iterable)"
+                    and len(nxt.body) == 1 and isinstance(nxt.body[0], ast.For)):
+                raise TranslationError("_coerce_status: `args = getattr(...)` is not followed by `if isinstance(args, Iterable): for ...`")
+            guarded_args = True
+            continue
+        if guarded_args and isinstance(s, ast.If) and ast.unparse(s.test) == "isinstance(args, Iterable)":
+            flat.append(s.body[0])
+            continue
+        flat.append(s)
+    if sum(isinstance(n, ast.Name) and n.id == "args" and isinstance(n.ctx, ast.Store) for n in ast.walk(f)) > 1:
+        raise TranslationError("_coerce_status: args is assigned more than once")
+    for s in flat:
         if isinstance(s, ast.For) and not s.orelse and isinstance(s.target, ast.Name):
             v = s.target.id
             if isinstance(s.iter, ast.Tuple) and all(isinstance(e, ast.Constant) and e.value in ATTRS for e in s.iter.elts):
@@ -149,7 +181,10 @@ def translate_coerce(f):
                     raise TranslationError(f"_coerce_status attribute loop body: {[ast.unparse(x) for x in s.body]}")
                 out += [("attr", ATTRS[e.value]) for e in s.iter.elts]
                 continue
-            if ast.unparse(s.iter) == f"getattr({exc}, 'args', ())" and len(s.body) == 1 and isinstance(s.body[0], ast.If) and not s.body[0].orelse:
+            if ast.unparse(s.iter) == f"getattr({exc}, 'args', ())":
+                raise TranslationError("_coerce_status iterates exc.args without checking that it can be iterated "
+                                       "(a type's own `args` attribute may hold None, a number, a plain object)")
+            if guarded_args and ast.unparse(s.iter) == "args" and len(s.body) == 1 and isinstance(s.body[0], ast.If) and not s.body[0].orelse:
                 t = s.body[0].test
                 if (isinstance(t, ast.BoolOp) and isinstance(t.op, ast.And) and len(t.values) == 2
                         and ast.unparse(t.values[0]) == f"isinstance({v}, int)" and isinstance(t.values[1], ast.Compare)
@@ -159,7 +194,7 @@ def translate_coerce(f):
                     out.append(("arg", const_int(t.values[1].left), const_int(t.values[1].comparators[1])))
                     continue
             raise TranslationError(f"_coerce_status loop: {ast.unparse(s)[:80]}")
-        if isinstance(s, ast.Return) and isinstance(s.value, ast.Constant) and s.value.value is None and s is body[-1]:
+        if isinstance(s, ast.Return) and isinstance(s.value, ast.Constant) and s.value.value is None and s is flat[-1]:
             continue
         raise TranslationError(f"_coerce_status statement: {ast.unparse(s)[:80]}")
     if not (body and isinstance(body[-1], ast.Return)):
@@ -213,6 +248,7 @@ def http_block(stmts, exc, top):
 def translate_http(repo_src):
     path = os.path.join(repo_src, "redress", "extras", "http.py")
     tree = ast.parse(open(path).read(), filename=path)
+    needs_iterable(tree, "http")
     funcs = {n.name: n for n in tree.body if isinstance(n, ast.FunctionDef)}
     for need in ("_coerce_status", "http_classifier"):
         if need not in funcs:
@@ -221,7 +257,7 @@ def translate_http(repo_src):
                for n in tree.body):
         raise TranslationError("default_classifier is not imported from ..classify")
     for n in ast.walk(tree):
-        if isinstance(n, ast.Name) and isinstance(n.ctx, ast.Store) and n.id in ("default_classifier", "_coerce_status", "isinstance", "getattr", "int"):
+        if isinstance(n, ast.Name) and isinstance(n.ctx, ast.Store) and n.id in ("default_classifier", "_coerce_status", "isinstance", "getattr", "int", "Iterable"):
             raise TranslationError(f"{n.id} is rebound")
     coerce = translate_coerce(funcs["_coerce_status"])
     f = funcs["http_classifier"]
@@ -235,7 +271,7 @@ def translate_http(repo_src):
 
 
 REGEX = {r"\b([0-9A-Z]{5})\b": "SBoundary", r"\[([0-9A-Z]{5})\]": "SBracketed"}
-EXTRACT_BODY = ["for arg in args:\n    if isinstance(arg, str):\n        match = _SQLSTATE_RE.search(arg)\n        if match:\n"
+EXTRACT_BODY = ["if not isinstance(args, Iterable):\n    return None", "for arg in args:\n    if isinstance(arg, str):\n        match = _SQLSTATE_RE.search(arg)\n        if match:\n"
                 "            return match.group(1)", "return None"]
 
 
@@ -292,6 +328,7 @@ def sql_block(stmts, exc, top, none_cond):
 def translate_sql(repo_src, module, fname):
     path = os.path.join(repo_src, "redress", "extras", module + ".py")
     tree = ast.parse(open(path).read(), filename=path)
+    needs_iterable(tree, module)
     funcs = {n.name: n for n in tree.body if isinstance(n, ast.FunctionDef)}
     regs = [n for n in tree.body if isinstance(n, ast.Assign) and len(n.targets) == 1 and is_name(n.targets[0], "_SQLSTATE_RE")]
     if len(regs) != 1 or not (isinstance(regs[0].value, ast.Call) and ast.unparse(regs[0].value.func) == "re.compile"
@@ -308,7 +345,7 @@ def translate_sql(repo_src, module, fname):
     if body != EXTRACT_BODY or [a.arg for a in ex.args.args] != ["args"]:
         raise TranslationError(f"{module}: _extract_sqlstate {body}")
     for n in ast.walk(tree):
-        if isinstance(n, ast.Name) and isinstance(n.ctx, ast.Store) and n.id in ("default_classifier", "_extract_sqlstate", "isinstance", "getattr", "str", "re"):
+        if isinstance(n, ast.Name) and isinstance(n.ctx, ast.Store) and n.id in ("default_classifier", "_extract_sqlstate", "isinstance", "getattr", "str", "re", "Iterable"):
             raise TranslationError(f"{module}: {n.id} is rebound")
     if sum(1 for n in ast.walk(tree) if isinstance(n, ast.Name) and isinstance(n.ctx, ast.Store) and n.id == "_SQLSTATE_RE") != 1:
         raise TranslationError(f"{module}: _SQLSTATE_RE assigned more than once")
